@@ -194,10 +194,10 @@ PROPS = {
     ),
     "C09": dict(
         props_module="Ucan.Props.C09",
-        streams=["robust", "selparse", "polipld", "policy"],
-        filter=lambda pid, d: d.get("stream") == "robust" or str(d.get("go", "")).startswith(("PANIC", "panic")) or "harness/model error" in d.get("class", ""),
+        streams=["robust", "selparse", "selector", "polipld", "policy", "glob", "did", "container", "token"],
+        filter=lambda pid, d: d.get("stream") == "robust" or str(d.get("go", "")).startswith(("PANIC", "panic", "TIMEOUT")) or "harness/model error" in d.get("class", ""),
         level="proof",
-        technique="Lean 4 proofs about the decoder models (total functions): the selector parser's only slice-bounds panic is unreachable for every input (invariant over the tokenizer loop), slice bounds are in range, integers beyond int64 give an error / false instead of a panic, CAR sections and decoded DAG-CBOR trees, selectors and policies are bounded by the input size; the models are tied differentially (selparse, polipld, policy streams incl. integers ≥ 2^63), and every untrusted entry point is exercised by the `robust` stream under recover with deep inputs in a memory-limited child process (PARTIAL: absence of OTHER panics, stack exhaustion and the dependencies' allocation behaviour are tested, not proved)",
+        technique="Lean 4 proofs about the decoder models (total functions): the selector parser's only slice-bounds panic is unreachable for every input (invariant over the tokenizer loop), slice bounds are in range, integers beyond int64 give an error / false instead of a panic, CAR sections and decoded DAG-CBOR trees, selectors and policies are bounded by the input size; the models are tied differentially (selparse, selector, polipld, policy, glob, did, container, token streams incl. integers ≥ 2^63, invalid UTF-8 and hostile length prefixes; any panic or hang of the real code in those streams is a C09 violation), and every untrusted entry point is exercised by the `robust` stream under recover with deep inputs in a memory-limited child process (PARTIAL: absence of OTHER panics, stack exhaustion and the dependencies' allocation behaviour are tested, not proved)",
         level_text="PARTIAL. Proved for all inputs, on the models: C09_parse_never_panics (no selector text reaches `lookup[1:len(lookup)-1]` with a one-byte lookup: a lone quote leaves the quote open and the selector is refused first — shown by an invariant over the tokenizer loop; the panic outcome IS reachable in the classifier alone, so the theorem is not vacuous); C09_slice_bounds_in_range; C09_beyond_int64_policy_is_error and C09_beyond_int64_compare_is_false (an integer that does not fit int64 anywhere in a policy is the bounds ERROR, comparing with one is false); C09_section_bounded (a CAR section is non-empty, ≤ 32 MiB and entirely present before it is returned); C09_cbor_tree_bounded, C09_declared_list_length_bounded, C09_declared_string_length_bounded (a decoded tree weighs ≤ the input; a declared length beyond the end of the input is an error); C09_selector_bounded; C09_policy_bounded. All model functions are total (Lean's termination checker), which is the model-level form of 'always terminates, returns value or error'. NOT proved, tested by the `robust` stream: that the Go code has no other panic site, that recursion depth cannot exhaust the goroutine stack, and how go-ipld-prime, libp2p, x509 and base58 allocate — 17 entry points × random bytes, mutated valid artefacts (bit flips, truncation, splices, hostile heads), correctly SIGNED delegations/invocations around hostile fields (uint ≥ 2^63, wrong kinds, invalid DIDs and key material, bad CIDs, non-canonical items), nesting depth 10^2…10^5 (3·10^6 thorough) in a child process under GOMEMLIMIT with a time limit, and allocation measured at n, 2n, 4n for seven growth families.",
         level_note="Trusted: Lean kernel; the hand-written models (tied differentially by the selparse/polipld/policy/selector/sealed/container streams); the `robust` stream is a TEST (sampling): it can find a panic, a crash, a hang or super-linear allocation, it cannot show their absence. go-ipld-prime's decoders, libp2p key parsing and crypto/x509 are dependencies: only observed. Three defects found by this check were repaired in /repo (see known_findings.json).",
         assumptions=["the Go runtime (stack growth, allocator) and the dependencies' decoders are outside the model; for them the check observes sampled inputs only"],
